@@ -7,27 +7,27 @@ CLAIMED = {
  "C02": dict(
   level="fault_enumeration",
   technique="deterministic simulation with fault injection: in-process fake of the external CBC solver process and its MPS/solution temp files (SimCBC), every fault kind enumerated at every solver invocation of seeded answer-first workloads, exact Fraction reference model, ddmin-minimised replay",
-  text="For each seeded workload (generated from its answer; ground truth by exact null space, Fourier-Motzkin cone feasibility and bounded enumeration) the fault-free run must satisfy the whole property in all three modes; then, for every solver invocation the smallest-integers / duplicate-search call makes, every fault of the SimCBC list is injected once (solution file torn at sampled or all byte offsets, every variable perturbed/dropped/scaled, stale or empty or missing file, rewritten status, crashed/killed/missing solver, relaxed or truncated search, ENOSPC/EIO/torn MPS, removed temp dir) and the safety half of the property must still hold (an answer is balanced, positive, integral, coprime, right keys, unique ray; any exception is an acceptable refusal). Enumeration is complete per (call, invocation, fault kind) within the listed kinds; workloads are sampled.",
+  text="For each seeded workload (generated from its answer; ground truth by exact null space, Fourier-Motzkin cone feasibility and bounded enumeration) the fault-free run must satisfy the whole property in all three modes; then, for every solver invocation the smallest-integers / duplicate-search call makes, every fault of the SimCBC list is injected once (solution file torn at sampled or all byte offsets, every variable perturbed/dropped/scaled, equality-only vectors from the exact null space, stale or empty or missing file, rewritten status, crashed/killed/missing solver, relaxed or truncated search, ENOSPC/EIO/torn MPS, removed temp dir), some faults are injected before the first healthy solve of a problem, and calls are repeated after decoy calls with the same keys (history independence) and the safety half of the property must still hold (an answer is balanced, positive, integral, coprime, right keys, unique ray; any exception is an acceptable refusal). Enumeration is complete per (call, invocation, fault kind) within the listed kinds; workloads are sampled.",
   note="Trusted: sim/models/nullspace.py (exact Fraction algebra), sim/models/composition.py (derivation-tree compositions), the real PuLP and cbc binary. Not injected: a solver that never terminates. Under faults minimality is not demanded for multi-dimensional cones. Known finding C02-parametric-infeasible-cone is listed, not alarmed.",
   design_ref="DESIGN.md section 3.1"),
  "C11": dict(
   level="exploration",
   technique="deterministic simulation: seeded operation histories on persistent Equilibrium objects checked step-by-step against an exact algebraic reference model (refinement), refused-operation faults, hash-seed configurations, ddmin-minimised replay",
-  text="Seeded search over operation histories (scale, negate, add, subtract, compound, eliminate, as_reactions; 3-25 steps over a growing pool of live objects). After every step the new object is compared with an exact integer-vector model (net stoichiometry, netted form, positivity, exact constant) and every other live object with its snapshot (aliasing/mutation). Sampling, not proof: a clean batch is evidence that no history within the bounds (|multiplier vector| <= 12, <= 4 bases, <= 8 species) breaks the property.",
+  text="Seeded search over operation histories (scale, negate, add, subtract, compound, eliminate, as_reactions with and without units, the user assigning a new constant or None to a live object, subscript reads, unrelated constructions with dont_check; 3-25 steps, 45 in the thorough tier, over a growing pool of live objects). After every step the new object is compared with an exact model (integer vector over the bases for the net stoichiometry, netted form, positivity; the expected constant carried explicitly per object) and every other live object with its snapshot (aliasing/mutation); a fixed canary before and after each history detects process-global state left behind. Sampling, not proof: a clean batch is evidence that no history within the bounds (|multiplier vector| <= 12, <= 5 bases, <= 10 species) breaks the property.",
   note="Trusted: the reference model sim/models/eqalgebra.py (40 lines of exact Fraction/sympy arithmetic), Python's Fraction and sympy.simplify for symbolic constants. Bases carry no inactive parts (excluded by the property). The value of Equilibrium.cancel is not asserted.",
   design_ref="DESIGN.md section 3.3"),
 }
 CLAIMED["C15"] = dict(
   level="exploration",
   technique="deterministic simulation: seeded operation histories on mutable, object-sharing ReactionSystem instances with fault injection into user callbacks and reaction iterables (k-th call raises, non-Reaction item), refinement against a graph reference model after every step, hash-seed configurations, ddmin-minimised replay",
-  text="Seeded search over histories (construct, +, +=, subset, split, concatenate interleaved with categorize/identify_equilibria/participation/effect/array/dict/index/varied/upper-bound queries; 3-20 steps) on a pool of live systems that share Reaction and Substance objects. After every step every live system is compared with the model (ordered reaction identities and substance keys), so a leak into a sibling, a partially applied failed operation or a mutated caller-owned list is caught; every query result is recomputed from raw stoichiometry by definition (union-find components, category definitions, exact-Fraction bounds with alternative states of equal element totals). Sampling, not proof.",
+  text="Seeded search over histories (construct in every documented way incl. on another system's substances mapping, +, +=, subset, split, n-ary concatenate, sort_substances_inplace, registering substances, interleaved with categorize/identify_equilibria/participation/effect/array/dict/index/varied/upper-bound queries with user min_ callbacks; 3-20 steps, 36 in the thorough tier) on a pool of live systems that share Reaction and Substance objects (and sometimes the substances mapping itself). After every step every live system is compared with the model (ordered reaction identities and substance keys), so a leak into a sibling, a partially applied failed operation or a mutated caller-owned list is caught; every query result is recomputed from raw stoichiometry by definition (union-find components, category definitions, exact-Fraction bounds with alternative states of equal element totals). Sampling, not proof.",
   note="Trusted: sim/models/rsysgraph.py. The first argument of concatenate is retired (its mutation is unspecified). identify_equilibria asserted exactly only when reverse partners are unique. Random reactions are not element-balanced: formula-mode systems are built with dont_check={'balance'} or checks=().",
   design_ref="DESIGN.md section 3.4")
 
 CLAIMED["C08"] = dict(
   level="fault_enumeration",
   technique="deterministic simulation with fault injection: in-process fake of the delegated non-linear solver (SimSolver under pyneqsys' own backend dispatch), every fault kind enumerated at every solver invocation of seeded equilibrium systems on re-used solver objects, defining-equation oracle by own arithmetic, fixed liveness panel, ddmin-minimised replay",
-  text="Seeded systems (acid/base/complexation pool, constants jittered over decades, starts over six decades incl. exact zeros; single-salt precipitation under/exactly/over-saturated) are solved by root/roots/solve/solve_equilibrium under each chain. Fault-free, every point flagged success-and-sane must satisfy non-negativity, element/charge conservation (1e-6), Q = K (1e-5 in ln) and the solid clauses; then for every solver invocation of that call every SimSolver fault (early stop with budgets, NaN/inf/garbage iterates reported as failure, failure reported at the root, exceptions raised inside the solver) is injected once on the same solver objects: soundness must still hold, a failed last invocation must not be reported as success, and a fault-free call afterwards must reproduce the pre-fault result (no sticky state). Liveness (>= 19/20) is judged on a fixed seed-independent panel in the well-conditioned sub-domain for both default entry points; single-equilibrium answers are compared with the bracketing scalar solver.",
+  text="Seeded systems (acid/base/complexation pool, constants jittered over decades, starts over six decades incl. exact zeros; single-salt precipitation under/exactly/over-saturated) are solved by root/roots/solve/solve_equilibrium under each chain. Fault-free, every point flagged success-and-sane must satisfy non-negativity, element/charge conservation (1e-6), Q = K (1e-5 in ln) and the solid clauses; then for every solver invocation of that call every SimSolver fault (early stop with budgets, NaN/inf/garbage iterates reported as failure, failure reported at the root, exceptions raised inside the solver) is injected once on the same solver objects: soundness must still hold, a failed last invocation must not be reported as success, and a fault-free call afterwards must reproduce the pre-fault result (no sticky state); histories also change constants on live objects, fix phase assumptions (static conditions) and use simulator-owned activity callbacks. Liveness (>= 19/20) is judged on a fixed seed-independent panel in the well-conditioned sub-domain for both default entry points; single-equilibrium answers are compared with the bracketing scalar solver.",
   note="Trusted: sim/models/equilibrium.py (compositions, constants, oracle), the real pyneqsys/scipy. Not injected: a Byzantine solver (success=True with an altered iterate). Two known findings are listed, not alarmed: least-squares convergence reported as success (sig own_residual_large), linear formulations started from an exact zero. Violations with those signatures are the only ones suppressed.",
   design_ref="DESIGN.md section 3.2")
 
